@@ -125,6 +125,7 @@ func trimStack(s string) string {
 }
 
 func beginExecution() {
+	progressTick.Add(1)
 	vsync.NewGeneration()
 	iorec.Reset()
 	sched.SetMode(sched.ModeSeq)
